@@ -207,7 +207,7 @@ PROPERTIES.update({
         "assumptions": ["C22 is claimed for its first clause only, as a frame condition of one function; the two other clauses are protocol-level (not_under_contract)"],
         "explanation": "Verus proves on the real text of Automerge::receive_sync_message_inner: if the sync state is read-only on entry, the document on exit equals the document on entry, for every message "
                        "(changes present or not, any flags) and on the error exits as well -- the one mutating callee, load_incremental_log_patches, carries no postcondition, so the obligation is that it is unreachable "
-                       "in that mode -- and receiving never flips the mode. On the real State::set_read_only: the mode becomes the argument; leaving read-only mode arms needs_reset and keeps the peer's capabilities; "
+                       "in that mode -- receiving never flips the mode, and a message carrying SYNC_RESET that is accepted leaves sent_hashes empty whatever else it says (the receiver forgets what it believes it sent). On the real State::set_read_only: the mode becomes the argument; leaving read-only mode arms needs_reset and keeps the peer's capabilities; "
                        "entering it keeps shared_heads / sent_hashes.",
     },
     "C29": {
